@@ -43,7 +43,7 @@ ASSUMPTIONS = [
     "nowrap=False (nowrap=True post-processing is property C10); /proc/diskstats exists (the /sys/block/*/stat fallback read_sysfs is not modelled)",
 ]
 MANIFEST = {
-    "level_text": "Machine-checked Lean 4 proofs over a model of _pslinux.net_io_counters, _pslinux.disk_io_counters (read_procfs branch + is_storage_device filter), the two psutil front ends (nowrap=False) and _psposix.disk_usage: round-trip theorems parse(render(table)) = documented fields for EVERY interface table (names with ':' '/' digits, unbounded counters) and for every /proc/diskstats table mixing the 14-, 18-, 20- (any >=18), 7- and 15-field layouts (sectors x 512), ValueError for every other field count, total = field-wise sum over whole disks only / over all interfaces, None/{} conventions, disk_usage formulas and percent range. The model's column maps, branch table, sector size, skip condition, namedtuple fields and disk_usage assignments are regenerated from the source on every run and are parameters of the model the theorems are about; the model is tied to the code by a differential run of the real front-end functions over a fake procfs whose files are produced by the Lean renderers.",
+    "level_text": "Machine-checked Lean 4 proofs over a model of _pslinux.net_io_counters, _pslinux.disk_io_counters (read_procfs branch + is_storage_device filter), the two psutil front ends (nowrap=False) and _psposix.disk_usage: round-trip theorems parse(render(table)) = documented fields for EVERY interface table (names with ':' '/' digits, unbounded counters) and for every /proc/diskstats table mixing the 14-, 18-, 20- (any >=18), 7- and 15-field layouts (sectors x 512), ValueError for every other field count, total = field-wise sum over whole disks only / over all interfaces (deleting every partition line leaves the total unchanged), None/{} conventions, disk_usage formulas, 0 <= percent <= 100, |round1 q - q| <= 1/20. The full-strength name statement (every interface name free of C-locale whitespace is reported unchanged) is proved for `.strip(' ')` and refuted with a witness for the bare `.strip()` the current source uses (finding C09-net-name-strip, fixes/C09-net-name-strip.diff). The model's column maps, branch table, sector size, skip condition, namedtuple fields and disk_usage assignments are regenerated from the source on every run and are parameters of the model the theorems are about; the model is tied to the code by a differential run of the real front-end functions over a fake procfs whose files are produced by the Lean renderers.",
     "level_note": "Trusted: Lean kernel + {propext, Classical.choice, Quot.sound}; the translator; the correspondence harness; kernel line renderers; int()/split()/strip()/round() of CPython modelled; read_sysfs fallback and non-ASCII Unicode spaces in names not modelled.",
     "technique": "Lean 4 round-trip proofs (render → parse) per kernel layout with translator-fed column maps + sum laws by induction + differential correspondence over a fake procfs",
     "design_ref": "DESIGN.md §5 C09",
